@@ -1,7 +1,7 @@
 #!/bin/bash
 # runs every thorough check once (optionally with a given VERIF_SEED) and prints one line per property
 cd "$(dirname "$0")"
-./check --build >/dev/null || exit 2
+[ -n "${VERIF_SKIP_BUILD:-}" ] || ./check --build >/dev/null || exit 2   # VERIF_SKIP_BUILD=1: reuse the binary (sweeps over several seeds while /repo is being patched for other tests)
 for p in C01 C02 C03 C04 C05 C06 C07 C08 C09 C10 C11 C13 C14 C15 C16 C17 C18 C19 C20; do
   out=$(./dst/target/release/mbn-dst check $p ${1:-thorough} 2>&1); rc=$?
   echo "$p exit=$rc $(echo "$out" | grep '^summary')"
